@@ -231,7 +231,7 @@ def exec_c06(cfg, devs):
     # only memory replies are faulted (the connect handshake is C02/C03's business)
     ex.env.reply_filter = lambda h, payload: None if ((h >> 4) & 15) == 4 else ('once',)
     ops = cfg['ops']
-    info = {'accepted': [], 'reconnected': False}
+    info = {'accepted': [], 'reconnected': False, 'issue_order': [], 'accepted_by_index': {}}
     errs = []
 
     def err_hook(port, chan, data):
@@ -261,7 +261,41 @@ def exec_c06(cfg, devs):
                 if ex.env.links and not ex.frozen:
                     ex.env.links[-1].fail_from_driver_thread()
             s.spawn(None, fault_body, name='env-driver-fault')
-        for i, (kind, mi, addr, ln) in enumerate(ops):
+        def issue(i, kind, mi, addr, ln):
+            ex.log('op', i, kind)
+            if cf.link is None:
+                info['issue_order'].append(i)
+                info['accepted_by_index'][i] = 'SKIPPED'
+                return
+            try:
+                if kind == 'r':
+                    acc = cf.mem.read(mems[mi], addr, ln)
+                else:
+                    acc = cf.mem.write(mems[mi], addr, list(_content(addr, ln, i + 1)), flush_queue=(kind == 'wf'))
+            except Exception as e:  # noqa
+                acc = e
+            # calls of the two user threads may overlap; they are ordered by completion (= order of the critical sections)
+            info['issue_order'].append(i)
+            info['accepted_by_index'][i] = acc
+            ex.log('op_ret', i, repr(acc)[:40])
+
+        if cfg.get('second_user'):
+            # the last operation comes from a second user thread at an arbitrary moment (lazy: one deviation to fire
+            # at any scheduling point, by default once everything before it has settled)
+            first, last = ops[:-1], ops[-1]
+
+            def second():
+                s.lazy_point('user2.op', timeout=cfg['second_user'])
+                issue(len(first), *last)
+            s.spawn(None, second, name='user2')
+            s.sleep(1e-6, 'let.user2.park')        # user2 parks itself as a lazy thread before anything is issued
+            for i, (kind, mi, addr, ln) in enumerate(first):
+                issue(i, kind, mi, addr, ln)
+            s.sleep(cfg['second_user'] + 0.01, 'wait.user2')
+            ops_iter = ()
+        else:
+            ops_iter = ops
+        for i, (kind, mi, addr, ln) in enumerate(ops_iter):
             ex.log('op', i, kind)
             if cf.link is None:
                 # the link is already down: a user would not issue further requests (outside the statement)
@@ -364,7 +398,16 @@ def _judge(p, cfg, devs, ex, info, dev, errs):
     # ---- per request: exactly one notification (unless refused or superseded) ------------------------
     # reference: walk ops; refused reads (another read on that memory still pending) are not accepted; flushed writes are
     # superseded.  Without faults everything completes in order.
-    acc = info['accepted']
+    if info.get('issue_order'):
+        # operations issued by two user threads: judge them in the order they were actually issued
+        order_ = info['issue_order']
+        orig_ops = ops
+        ops = tuple(orig_ops[i] for i in order_)
+        acc = [info['accepted_by_index'].get(i, 'SKIPPED') for i in order_]
+        salt = {j: order_[j] + 1 for j in range(len(order_))}
+    else:
+        acc = info['accepted']
+        salt = {j: j + 1 for j in range(len(ops))}
     for i, a in enumerate(acc):
         if isinstance(a, Exception):
             viol('op_raised:%s:%s' % (ops[i][0], type(a).__name__), 'operation %d %r raised %r' % (i, ops[i], a))
@@ -443,7 +486,7 @@ def _judge(p, cfg, devs, ex, info, dev, errs):
             ref = {}
             for i, (kind, mi2, addr, ln) in enumerate(ops):
                 if mi2 == mi and kind in ('w', 'wf') and i < len(acc) and acc[i] is True and i not in superseded:
-                    for j, b in enumerate(_content(addr, ln, i + 1)):
+                    for j, b in enumerate(_content(addr, ln, salt[i])):
                         ref[addr + j] = b
             cells = {a: b for a, b in sm.cells.items() if a < 0x2000}
             # superseded writes may have partially/fully happened; compare only if none were superseded
@@ -462,7 +505,16 @@ def _judge(p, cfg, devs, ex, info, dev, errs):
             for a in seen:
                 if not dedup or dedup[-1] != a:
                     dedup.append(a)
-            if [a for a in dedup] != order and len(set(order)) == len(order):
+            # calls that overlap in time may take effect in either order
+            calls = {}
+            for pos, e in enumerate(ex.events):
+                if e[1] == 'op':
+                    calls.setdefault(e[2], [pos, 1 << 60])
+                elif e[1] == 'op_ret' and e[2] in calls:
+                    calls[e[2]][1] = pos
+            iv = sorted(calls.values())
+            overlapping = any(a[1] > b[0] for a, b in zip(iv, iv[1:]))
+            if [a for a in dedup] != order and len(set(order)) == len(order) and not overlapping:
                 viol('write_order', 'mem %d: writes reached the device in order %r, issued %r' % (MEM_IDS[mi], dedup, order))
     # ---- nothing left behind ------------------------------------------------------------------------------------
     if info.get('lock_held'):
@@ -485,6 +537,10 @@ def configs(quick):
     for i, ops in enumerate(_ops_alphabet()):
         name = 'ops:' + ','.join('%s%d@%d+%d' % o for o in ops)
         out.append({'name': name, 'ops': ops, 'fault': True})
+    for ops in ((('w', 0, 0, 1), ('w', 0, 40, 45)), (('w', 0, 0, 26), ('w', 0, 40, 26)), (('r', 0, 0, 21), ('r', 0, 40, 21)),
+                (('w', 0, 0, 26), ('r', 0, 0, 26)), (('w', 0, 0, 26), ('wf', 0, 40, 26))):
+        name = 'user2:' + ','.join('%s%d@%d+%d' % o for o in ops)
+        out.append({'name': name, 'ops': ops, 'fault': False, 'second_user': 1.3})
     for ops in ((('w', 0, 0, 26),), (('r', 0, 0, 21),), (('w', 0, 0, 26), ('w', 0, 40, 1))):
         name = 'sendfault:' + ','.join('%s%d@%d+%d' % o for o in ops)
         out.append({'name': name, 'ops': ops, 'fault': False, 'send_fault': True})
@@ -493,7 +549,7 @@ def configs(quick):
 
 def run(ck):
     cfh.setup()
-    ck.rule = ('A: 3 memory ids x 7 start addresses x (read lengths 0..61 + write lengths 0..76, with and without '
+    ck.rule = ('(B also: 5 sequences whose last operation is issued by a second user thread at any scheduling point) A: 3 memory ids x 7 start addresses x (read lengths 0..61 + write lengths 0..76, with and without '
                'progress callback) on a fault-free link. B: 22 operation sequences (1-3 reads / writes / flushing writes '
                'on 1-2 memories, lengths 0/1/20/21/26/45) x deviation vectors over per-reply {dup, delay 1.05 s, drop}, '
                'per-request error status, link loss from the driver thread at any point, thread order; each ends with a '
